@@ -14,7 +14,7 @@ def _lean_exists(m): return os.path.exists(os.path.join(LEAN, m.replace('.', '/'
 def _py_exists(m): return os.path.exists(os.path.join(HARNESS, m.replace('.', '/') + '.py'))
 
 
-def add(pid, props, corr, technique, partial, extra_trusted=()):
+def add(pid, props, corr, technique, partial, extra_trusted=(), regex_files=()):
     props = ['MdVerif.Props.' + p for p in props]
     have = [p for p in props if _lean_exists(p)]
     audits = [p.replace('.Props.', '.Audit.') for p in have]
@@ -22,10 +22,21 @@ def add(pid, props, corr, technique, partial, extra_trusted=()):
     oracle = 'oracle.' + pid.lower()
     PLANNED[pid] = {'props': props, 'missing': [p for p in props if p not in have]}
     if have and _py_exists(oracle):
-        P[pid] = Spec(pid, have, audits, corr=corr, oracle=oracle, partial=partial, technique=technique, extra_trusted=list(extra_trusted))
+        P[pid] = Spec(pid, have, audits, corr=corr, oracle=oracle, partial=partial, technique=technique, extra_trusted=list(extra_trusted),
+                      regex_files=REGEX_FILES.get(pid, ()))
 
 
 PIPE = ['corr.pipeline', 'corr.block', 'corr.inline']
+CORE_RE = ['markdown/inlinepatterns.py', 'markdown/blockprocessors.py', 'markdown/util.py', 'markdown/serializers.py',
+           'markdown/postprocessors.py', 'markdown/htmlparser.py']
+# source files whose regular-expression literals the models of each property were validated against (framework.regex_guard)
+REGEX_FILES = {
+    'C01': CORE_RE, 'C02': CORE_RE + ['markdown/extensions/'], 'C03': CORE_RE, 'C04': ['markdown/htmlparser.py', 'markdown/postprocessors.py', 'markdown/util.py'],
+    'C05': CORE_RE, 'C06': CORE_RE, 'C07': CORE_RE, 'C08': CORE_RE, 'C10': CORE_RE, 'C14': ['markdown/serializers.py'],
+    'C15': ['markdown/blockprocessors.py', 'markdown/inlinepatterns.py'],
+    'C16': ['markdown/extensions/'], 'C17': ['markdown/extensions/toc.py', 'markdown/extensions/footnotes.py', 'markdown/extensions/attr_list.py'],
+    'C18': ['markdown/util.py', 'markdown/postprocessors.py'],
+}
 
 add('C01', ['C01Spec', 'C01'], ['corr.doc'] + PIPE,
     'Lean 4: specification `spec : Doc → html` of the construct grammar + print; theorems on the pipeline model for sub-grammars; spec and model both tied to the implementation by correspondence',
